@@ -1164,7 +1164,7 @@ def add_postselection(plan, tier):
         return cell["P"] == 0 if not isinstance(o.state, list) else sum(x * x for x in o.state) <= 1e-16
 
     cases = []
-    dims = (2, 4) if tier == "quick" else (2, 4, 8)
+    dims = (2, 4)          # (8 components: the non-linear VCs are beyond the solver budget; not claimed)
     for d in dims:
         for nshots in (None, 1, 2, 3):
             for mode, mode_given in ((None, False), (None, True), ("hw-like", True), ("fill-shots", True)):
